@@ -38,7 +38,13 @@ HasCons(p) == p \in {"eq", "ineq_active", "ineq_inactive"}
 ObjDeg(o)  == IF o = "qp" THEN 2 ELSE 9
 AutoMethod(o, p) == IF ~HasCons(p) THEN "L-BFGS-B" ELSE IF ObjDeg(o) > 2 THEN "trust-constr" ELSE "SLSQP"
 
-Structs == {s \in [n : 2..3, obj : ObjClasses, cons : ConPatterns, order : Orders, sense : Senses, m : Methods, bp : BoundPairs] :
+Spellings == {"scalar", "vector"}         \* scalar Variables and products | VectorVariable, quadratic_form, a @ x
+ConForms  == {"ge", "le_neg", "const_minus"}   \* lhs >= b | -lhs <= -b | b - lhs <= 0   (the same relation)
+ObjForms  == {"plain", "const_minus"}          \* f (resp. -f) | 3 - (-f) (resp. 3 - f)  (the same argmin)
+Structs == {s \in [n : 2..3, obj : ObjClasses, cons : ConPatterns, order : Orders, sense : Senses, m : Methods, bp : BoundPairs,
+                   spell : Spellings, cform : ConForms, oform : ObjForms] :
+              /\ (~HasCons(s.cons) => s.cform = "ge") /\ (s.cons = "eq" => s.cform = "ge")
+              /\ (s.spell = "vector" => s.order = "natural")
               /\ (s.m = "L-BFGS-B" => ~HasCons(s.cons))
               /\ (s.cons = "bounds_active" => ~IsNoneQ(s.bp[2]))}
 
@@ -51,6 +57,7 @@ Wire(s) ==
      n_cons    |-> IF HasCons(s.cons) THEN 1 ELSE 0,
      con_type  |-> IF s.cons = "eq" THEN "eq" ELSE IF HasCons(s.cons) THEN "ineq" ELSE "none",
      fun_sign  |-> 1,             \* fun = +f for minimise f, and = -(-f) = +f for maximise -f : the solver always minimises f
+     fun_offset |-> IF s.oform = "plain" THEN 0 ELSE IF s.sense = "min" THEN 3 ELSE -3,   \* fun = f + offset
      x0        |-> X0Rule(s.bp[1], s.bp[2])]
 
 VARIABLES st, pred
